@@ -428,6 +428,27 @@ impl<'s, M: Matcher, S: Sink> Core<'s, M, S> {
                         pos = buf.len();
                         continue;
                     }
+                    // With a CRLF terminator, a match found in the whole
+                    // buffer can be an empty match between the `\r` and
+                    // the `\n` of a terminator, which is not part of any
+                    // line's content. So the match must be confirmed on the
+                    // stripped line, just like a candidate.
+                    if self.config.line_term.is_crlf() {
+                        let slice = lines::without_terminator(
+                            &buf[line],
+                            self.config.line_term,
+                        );
+                        match self.matcher.is_match(slice) {
+                            Err(err) => {
+                                return Err(S::Error::error_message(err))
+                            }
+                            Ok(true) => return Ok(Some(line)),
+                            Ok(false) => {
+                                pos = line.end();
+                                continue;
+                            }
+                        }
+                    }
                     return Ok(Some(line));
                 }
                 Ok(Some(LineMatchKind::Candidate(i))) => {
